@@ -101,7 +101,7 @@ fn layout_variants(src: &str) -> Vec<String> {
 
 pub fn run(ctx: &Ctx) -> Outcome {
     let mut out = Outcome::new("exploration");
-    let max_lines = ctx.tier.pick(4usize, 5usize);
+    let max_lines = ctx.tier.pick(5usize, 6usize);
     // (a) all texts: each line has a content and a terminator (LF / CRLF); the last line may have none
     let n = LINES.len();
     let firsts: Vec<(usize, usize)> = (0..n).flat_map(|a| (0..2).map(move |t| (a, t))).collect();
